@@ -61,6 +61,17 @@ CHECKS.update({
    text="Exploration. All transformation kinds (GMAC/GCM, 128/256) with and without origin authentication at all three levels; every length 0-70 and random lengths up to 64 KiB; every named field of CryptoHeader/Content/Footer altered must be rejected, any other altered byte must not change the output; keys of another registration and missing/foreign receiver-specific MACs must be rejected; the framing leg runs payloads through MessageBuilder, serialisation, parsing and the receive-side decode path so RTPS padding is in the loop.",
    note="Security build (cargo feature security); fabricated shared secrets (no certificates); the secure full-stack scenarios belong to C07.", ref="3/C16"),
 })
+CHECKS.update({
+ "C12": dict(engine="E-DISC + E-STACK/fake-participants", technique="runtime monitoring with interval-bracketed real time: a real DiscoveryDB driven synchronously with short leases (only verdicts decided by the measured brackets are judged), plus a real participant whose fake remote peers go silent, are disposed and reappear",
+   text="Exploration. DB leg: random scripts of update/alive/cleanup/dispose/endpoint announcements/sleeps with leases 40-400 ms, infinite and absent; rules no-early-drop, drop-after, dispose-immediate, attic-restore. Stack leg: ParticipantLost and unmatch events of a real participant must not come before the advertised lease has elapsed since the last announcement, must come within a generous bound after it, never for a peer that keeps announcing, and at once after an explicit dispose.",
+   note="Wall-clock enters only through measured brackets (DB leg) and generous watchdogs (stack leg: lease + 12 s); liveliness assertions through ParticipantMessageData are exercised only at the DB level (participant_is_alive).", ref="3/C12"),
+ "C18": dict(engine="E-SEC/access", technique="runtime monitoring: signed-document alteration sweep through the real S/MIME verification path with an independent MIME walker; random permissions/governance documents through the real XML parsers and decision functions against a reference evaluator (own fnmatch) that judges only verdicts every reading of the statement agrees on",
+   text="Exploration. Signature leg: every alteration class at sampled positions of each region of committed signed fixtures (content changes rejected; anything accepted returns byte-identical signed content; foreign-CA, transplanted and unsigned documents rejected; also through validate_local/remote_permissions). Decision leg: generated grants/rules/domain sets/patterns/validity windows/defaults, queries through check_entity (with partitions) and the public check_* functions, compared with the reference evaluator.",
+   note="Security build; fixtures signed once with the shipped Permissions CA key and committed; corners the statement does not decide (empty partition lists, partially matching partitions, conflicting grants, ...) are excluded and listed in the evidence assumptions.", ref="3/C18"),
+ "C19": dict(engine="E-SEC/auth", technique="runtime monitoring: scripted three-message handshakes between real AuthenticationBuiltin instances with committed CA-issued / foreign-CA / self-signed identities; catalogue of field and byte alterations, replays, reorderings and forger-built messages in every waiting state; oracle = nobody authenticates or gets a secret from a forgery, and the genuine handshake still completes afterwards",
+   text="Exploration. Genuine pairs complete with equal secrets (both role orders, repeated, interleaved). A 347-entry forgery catalogue is run in all waiting states: any forgery must not lead to Ok/OkFinalMessage or a shared secret, and the genuine next message must still complete the handshake (no-dos).",
+   note="Security build; plugin level (SecureDiscovery's resend logic is read, not driven); properties the spec makes optional are not judged when altered; certificate validity periods are not checked by the implementation (observed, not judged).", ref="3/C19"),
+})
 NOT_YET = {}
 
 def main():
